@@ -22,6 +22,10 @@ type TxIndex struct {
 	indexed map[string]int64 // upper-hex hash -> height
 	Lookups int64
 	Hits    int64
+	// LimitOn/Limit: only entries indexed at a height <= Limit are visible (used when a block is re-executed:
+	// Tendermint's indexer does not know the block that is being replayed)
+	LimitOn bool
+	Limit   int64
 	Addr    string
 	ln      net.Listener
 	srv     *http.Server
@@ -61,13 +65,23 @@ func (t *TxIndex) Add(hash []byte, height int64) {
 func (t *TxIndex) Has(hash []byte) bool {
 	t.mu.Lock()
 	defer t.mu.Unlock()
-	_, ok := t.indexed[strings.ToUpper(hex.EncodeToString(hash))]
+	h, ok := t.indexed[strings.ToUpper(hex.EncodeToString(hash))]
+	if ok && t.LimitOn && h > t.Limit {
+		return false
+	}
 	return ok
+}
+
+func (t *TxIndex) SetLimit(on bool, h int64) {
+	t.mu.Lock()
+	t.LimitOn, t.Limit = on, h
+	t.mu.Unlock()
 }
 
 func (t *TxIndex) Reset() {
 	t.mu.Lock()
 	t.indexed = map[string]int64{}
+	t.LimitOn = false
 	t.mu.Unlock()
 }
 
@@ -100,6 +114,9 @@ func (t *TxIndex) handle(w http.ResponseWriter, r *http.Request) {
 	hx := strings.ToUpper(hex.EncodeToString(hb))
 	t.mu.Lock()
 	h, ok := t.indexed[hx]
+	if ok && t.LimitOn && h > t.Limit {
+		ok = false
+	}
 	t.mu.Unlock()
 	if !ok {
 		fail(fmt.Sprintf("Tx (%s) not found", hx))
